@@ -242,7 +242,30 @@ func (rw *rewriter) call(name string, args ...ast.Expr) *ast.CallExpr {
 
 func (rw *rewriter) site(n ast.Node) ast.Expr {
 	p := rw.fset.Position(n.Pos())
-	return &ast.BasicLit{Kind: token.STRING, Value: strconv.Quote(fmt.Sprintf("%s:%d", shortFile(p.Filename), p.Line))}
+	fn := rw.enclosingFunc(n.Pos())
+	return &ast.BasicLit{Kind: token.STRING, Value: strconv.Quote(fmt.Sprintf("%s:%d:%s", shortFile(p.Filename), p.Line, fn))}
+}
+
+// enclosingFunc names the top-level function containing pos ("Recv.Method" or "Func").
+func (rw *rewriter) enclosingFunc(pos token.Pos) string {
+	for _, d := range rw.file.Decls {
+		fd, ok := d.(*ast.FuncDecl)
+		if !ok || fd.Body == nil || pos < fd.Pos() || pos > fd.End() {
+			continue
+		}
+		name := fd.Name.Name
+		if fd.Recv != nil && len(fd.Recv.List) > 0 {
+			t := fd.Recv.List[0].Type
+			if st, ok := t.(*ast.StarExpr); ok {
+				t = st.X
+			}
+			if id, ok := t.(*ast.Ident); ok {
+				name = id.Name + "." + name
+			}
+		}
+		return name
+	}
+	return "?"
 }
 
 func shortFile(name string) string {
